@@ -228,6 +228,11 @@ impl<'a> P<'a> {
                     return self.err("expected STORED or VIRTUAL");
                 };
                 kids.push(n("GENERATED", vec![Tree::E(e), a(kind)]));
+            } else if self.is_word("COLLATE") && self.my() {
+                // MySQL column attribute (any position among the attributes)
+                self.i += 1;
+                let name = self.word()?;
+                kids.push(n("COLLATE", vec![a(name)]));
             } else if self.is_word("COMMENT") {
                 if !self.my() {
                     return self.err("column COMMENT is MySQL syntax");
